@@ -193,6 +193,7 @@ func codecCheck(c *chk.Ctx, enforce string) {
 			vt := tr.Msg(v.ProtoReflect())
 			vtOf[vkey{ci, mode}] = vt
 			add := func(e map[string]any) {
+				e["server"] = strings.HasPrefix(fmt.Sprint(e["src"]), "server")
 				allLines = append(allLines, lineRef{ci, mode, jsonLine(e)})
 				evals++
 			}
@@ -320,7 +321,7 @@ func codecCheck(c *chk.Ctx, enforce string) {
 					if e["event"] == "Decode" {
 						back, ok := tree(unb64s(e["valB64"]))
 						ok = ok && e["ok"] == true
-						lines2 = append(lines2, lineRef{ci, mode, jsonLine(map[string]any{"event": "Round", "src": src, "client": k == 7, "foreign": true, "ok": ok, "val": vt, "back": back,
+						lines2 = append(lines2, lineRef{ci, mode, jsonLine(map[string]any{"event": "Round", "server": false, "src": src, "client": k == 7, "foreign": true, "ok": ok, "val": vt, "back": back,
 							"detail": firstN(fmt.Sprint(e["err"]), 200)})})
 						evals++
 					}
@@ -330,13 +331,13 @@ func codecCheck(c *chk.Ctx, enforce string) {
 			for _, e := range ev3[fmt.Sprintf("%d/%d", ci, mode*10+8)] {
 				if e["event"] == "HandlerSaw" {
 					back, ok := tree(unb64s(e["valB64"]))
-					lines2 = append(lines2, lineRef{ci, mode, jsonLine(map[string]any{"event": "Accept", "src": "server request in contract form", "client": false, "foreign": true, "ok": ok, "val": vt, "back": back, "detail": ""})})
+					lines2 = append(lines2, lineRef{ci, mode, jsonLine(map[string]any{"event": "Accept", "server": true, "src": "server request in contract form", "client": false, "foreign": true, "ok": ok, "val": vt, "back": back, "detail": ""})})
 					saw = true
 					evals++
 				}
 			}
 			if !saw && len(ev3[fmt.Sprintf("%d/%d", ci, mode*10+8)]) > 0 {
-				lines2 = append(lines2, lineRef{ci, mode, jsonLine(map[string]any{"event": "Accept", "src": "server request in contract form", "client": false, "foreign": true, "ok": false, "val": vt, "back": nullTree,
+				lines2 = append(lines2, lineRef{ci, mode, jsonLine(map[string]any{"event": "Accept", "server": true, "src": "server request in contract form", "client": false, "foreign": true, "ok": false, "val": vt, "back": nullTree,
 					"detail": "the server did not dispatch the contract-form request"})})
 				evals++
 			}
